@@ -55,8 +55,9 @@ def gen_transactions(r, n, with_24=True):
         da = A.DeviceShort(48 + r.randrange(16))
         kind = r.choice(["plain", "query+answer", "query+noframe", "query+timeout", "query+error", "query+interrupted", "twice", "twice-single",
                          "twice-different", "twice+backward", "twice+noframe", "edt+ext", "edt+ext-other", "edt+plain", "edt+gap+ext",
-                         "dev-query", "dev-twice", "event", "event-di", "unknown16", "unknown24", "stray-backward"])
-        if not with_24 and kind in ("dev-query", "dev-twice", "event", "event-di", "unknown24"):
+                         "dev-query", "dev-twice", "event", "event-di", "unknown16", "unknown24", "stray-backward",
+                         "twice-lookalike24"])
+        if not with_24 and kind in ("dev-query", "dev-twice", "event", "event-di", "unknown24", "twice-lookalike24"):
             kind = "plain"
         S, L = 0.05, 0.5
         g0 = r.choice([S, L])
@@ -84,6 +85,9 @@ def gen_transactions(r, n, with_24=True):
         elif kind == "twice-different":
             other = gg.SetMinLevel(a).frame.as_integer
             tx = [(g0, "F", 16, tf), (0.025, "F", 16, other), (0.025, "F", 16, other)]
+        elif kind == "twice-lookalike24":
+            # the repeat is replaced by a 24-bit frame whose low 16 bits equal the command's: a different frame
+            tx = [(g0, "F", 16, tf), (0.025, "F", 24, tf)]
         elif kind == "twice+backward":
             tx = [(g0, "F", 16, tf), (0.012, "B", 8, v)]
         elif kind == "twice+noframe":
@@ -165,7 +169,7 @@ def tridonic_case(seed, part, i, res):
         reps = flatten(txs, t)
         all_reports += reps
         for k in tags:
-            if k.startswith("twice-") or k in ("twice+backward", "twice+noframe"):
+            if k.startswith("twice-") or k in ("twice+backward", "twice+noframe"):  # incl. twice-lookalike24
                 res.hit("twice_failed_cases")
             if k in ("query+noframe", "query+timeout", "query+interrupted"):
                 res.hit("query_no_answer_cases")
@@ -183,6 +187,8 @@ def tridonic_case(seed, part, i, res):
         join = r.choice([0] + list(range(1, n_seg)))
         leave = r.choice([None] + list(range(join + 1, n_seg + 1)))
         subs.append((join, leave))
+    # a subscriber may be a one-shot listener that unsubscribes itself from inside its own callback
+    oneshot = [r.random() < 0.3 for _ in subs]
     logs = {k: [] for k in range(len(subs))}
     quirk = r.random() < 0.5
     quirk_log = []
@@ -196,10 +202,16 @@ def tridonic_case(seed, part, i, res):
         handles = {}
 
         def join(k):
-            handles[k] = d.bus_traffic.register(lambda drv, c, rsp, e, k=k: logs[k].append((w.now, c, rsp, e)))
+            def cb(drv, c, rsp, e, k=k):
+                logs[k].append((w.now, c, rsp, e))
+                if oneshot[k] and k in handles:
+                    handles.pop(k).unregister()
+                    res.hit("oneshot_unsubscribes")
+            handles[k] = d.bus_traffic.register(cb)
 
         def leave(k):
-            handles.pop(k).unregister()
+            if k in handles:
+                handles.pop(k).unregister()
         boundaries = [0.5] + segs
         for k, (j, l) in enumerate(subs):
             w.at(boundaries[j], lambda k=k: join(k))
@@ -316,8 +328,14 @@ def tridonic_case(seed, part, i, res):
         for k, (j, l) in enumerate(subs):
             lo = boundaries[j]
             hi = boundaries[l] + 0.01 if l is not None else float("inf")
-            want_k = [z for z in norm([x for x in base_log if lo <= x[0] < hi])]
+            in_k = [x for x in base_log if lo <= x[0] < hi]
+            want_k = [z for z in norm(in_k)]
             got_k = norm(logs[k])
+            if oneshot[k] and want_k:
+                # it left from inside its first callback: the first report, plus at most the reports that had already been
+                # made (same instant, before that callback ran) while it was still subscribed
+                same = sum(1 for x in in_k if x[0] == in_k[0][0])
+                want_k = want_k[:max(1, min(len(got_k), same))]
             res.hit("subscriber_logs_compared")
             if got_k != want_k:
                 res.violation("C20/tridonic/subscriber-delivery", f"subscriber {k} (joined at {lo}, left at {hi}) received {len(got_k)} reports, "
